@@ -22,3 +22,52 @@ Definition chk_history (table : list dsm) (ixs proj : list nat) (expected : list
   (refs : list (nat * list (list (list N)))) : bool :=
   chk_combine_proj table ixs proj (Ok expected) &&
   forallb (fun kr => chk_reference table ixs proj (fst kr) (snd kr) && chk_setspec table ixs proj (fst kr) (snd kr)) refs.
+
+(* ---- long histories and large totals: the history is generated here from a
+   few numbers (printing thousands of PDUs as terms would dominate the run),
+   the harness builds the same PDUs for the implementation ---- *)
+(* a segment with the 16-bit concatenation element (IEI 8), whatever the reference *)
+Definition seg16 (src dst : addr) (ref total seq : N) : dsm :=
+  {| d_id := 0; d_src := src; d_dst := dst;
+     d_udh := Some [(8, [(ref / 256) mod 256; ref mod 256; total; seq])] |}.
+(* n one-part concatenated messages with references lo, lo+1, ...: each is complete on arrival *)
+Definition fillers (src dst : addr) (lo : N) (n : nat) : list dsm :=
+  map (fun i => seg16 src dst (lo + N.of_nat i) 1 1) (seq 0 n).
+(* n two-part messages, parts in order *)
+Definition fillers2 (src dst : addr) (lo : N) (n : nat) : list dsm :=
+  flat_map (fun i => [seg16 src dst (lo + N.of_nat i) 2 1; seg16 src dst (lo + N.of_nat i) 2 2]) (seq 0 n).
+(* the segments of one message of [total] parts in the arrival order [order] (sequence numbers) *)
+Definition ordered_segs (src dst : addr) (ref total : N) (order : bytes) : list dsm :=
+  map (fun q => seg16 src dst ref total q) order.
+
+Fixpoint find_exception (exc : list (N * list (list N))) (j : N) : option (list (list N)) :=
+  match exc with
+  | [] => None
+  | (k, x) :: r => if k =? j then Some x else find_exception r j
+  end.
+(* the trace given sparsely: at arrival j (from 1) the callbacks are those listed
+   for j in [exc]; otherwise the default of that arrival: 0 none, 1 the
+   arriving PDU alone, 2 the previous and the arriving PDU *)
+Fixpoint sparse_trace (dflt : list N) (exc : list (N * list (list N))) (j : N) : list (list (list N)) :=
+  match dflt with
+  | [] => []
+  | o :: r =>
+    (match find_exception exc j with
+     | Some x => x
+     | None => if o =? 1 then [[j]] else if o =? 2 then [[j - 1; j]] else []
+     end) :: sparse_trace r exc (j + 1)
+  end.
+(* case: target message of [total] parts whose segments [before] arrive first,
+   then [n] filler messages (one-part if [two] is false, else two-part), then
+   the segments [after]; observed: every filler message fires at its last
+   part, the target segments do not, except as listed *)
+Definition chk_long (src dst : addr) (ref total : N) (before : bytes) (lo : N) (n : nat) (two : bool) (after : bytes)
+  (exc : list (N * list (list N))) : bool :=
+  let h := ordered_segs src dst ref total before ++ (if two then fillers2 src dst lo n else fillers src dst lo n)
+           ++ ordered_segs src dst ref total after in
+  let dflt := map (fun _ => 0) before ++ (if two then flat_map (fun _ => [0; 2]) (seq 0 n) else map (fun _ => 1) (seq 0 n))
+              ++ map (fun _ => 0) after in
+  beq_otrace (run_ids h) (Ok (sparse_trace dflt exc 1)).
+(* case: one message of [total] parts arriving in [order]: no callback except as listed *)
+Definition chk_order (src dst : addr) (ref total : N) (order : bytes) (exc : list (N * list (list N))) : bool :=
+  beq_otrace (run_ids (ordered_segs src dst ref total order)) (Ok (sparse_trace (map (fun _ => 0) order) exc 1)).
